@@ -60,6 +60,12 @@ func sweepCharLevel(c *Ctx, rec spg.CharRecipe, L int, prefix, cont []uint32, bu
 		return genOp(t, rec)
 	}, func(l *Leaf) bool {
 		c.T(l.Res.tkey())
+		if l.Res.Kind == "error" && l.Draws >= spg.MaxTrials {
+			// a give-up after at least as many draws as attempts are permitted: every attempt needs at
+			// least one draw (an implementation may draw several characters at once), so the permitted
+			// attempts may all have been made; whether the budget was honoured exactly is C13's business
+			return true
+		}
 		if l.Res.Kind != "ok" {
 			if ll.badLeaf == "" {
 				ll.badLeaf = fmt.Sprintf("path %v (after prefix %v): %s", l.Path, prefix, l.Res.brief())
